@@ -508,6 +508,10 @@ class TracerMixin:
             if names is None:
                 names = self.names  # `None` sets *all* variables
 
+        # Take a copy so that the `Trace` never shares its list of names with
+        # the caller or the model (either may change theirs later)
+        names = list(names)
+
         # Extract results as a column vector
         results = np.array([[self[x][t]] for x in names])
 
